@@ -779,6 +779,69 @@ theorem step_refines {n k : Nat} (hn : 0 < n) {s : St} {t : SpecSt} (hr : RegsAb
     obtain ⟨s', e, h1, h2, h3⟩ := bin1_refines hr (d := d) (r := d) (by omega) (by omega) (fun _ => loadBits n ws)
       (Spec.ofWords ws) (fun _ _ => loadBits_abs hd.1.2)
     exact ⟨s', e, h1, by rw [h2, hl]; rfl, by omega⟩
+  | obs r =>
+    simp only [Op.inDomain, Bool.and_eq_true, decide_eq_true_eq] at hd
+    obtain ⟨b, e, hb⟩ := getReg_abs hr (r := r) (by omega)
+    refine ⟨{ s with olog := s.olog ++ [specObserveReg n (specGet t.regs r)] }, ?_, hr, hl, hk⟩
+    simp only [step, e, observeReg_abs hb hd.2]
+
+/-- Operations other than `obs` leave the observation log alone. -/
+theorem bin1_olog {s s' : St} {d r : Nat} {f : Bits → Except Panic Bits} (h : bin1 s d r f = .ok s') :
+    s'.olog = s.olog := by
+  unfold bin1 at h
+  split at h
+  · cases h
+  · split at h
+    · cases h
+    · split at h
+      · cases h
+      · cases h; rfl
+
+theorem bin2_olog {s s' : St} {d a b : Nat} {f : Bits → Bits → Bits} (h : bin2 s d a b f = .ok s') :
+    s'.olog = s.olog := by
+  unfold bin2 at h
+  split at h
+  · cases h
+  · split at h
+    · cases h
+    · split at h
+      · cases h
+      · cases h; rfl
+
+/-- The mid-history observations (`obs r`) of the model are the specification's: if the logs agree before a step,
+    they agree after it. -/
+theorem step_olog {n k : Nat} {s s' : St} {t : SpecSt} (hr : RegsAbs n s.regs t.regs) (hk : s.regs.length = k)
+    (ho : s.olog = t.olog.map (specObserveReg n)) (op : Op) (hd : op.inDomain n k = true)
+    (e : step n s op = .ok s') : s'.olog = (specStep t op).olog.map (specObserveReg n) := by
+  cases op with
+  | obs r =>
+    simp only [Op.inDomain, Bool.and_eq_true, decide_eq_true_eq] at hd
+    obtain ⟨b, eb, hb⟩ := getReg_abs hr (r := r) (by omega)
+    simp only [step, eb, observeReg_abs hb hd.2] at e
+    cases e
+    simp only [specStep, List.map_append, List.map_cons, List.map_nil, ho]
+  | test r x =>
+    simp only [step] at e
+    split at e
+    · cases e
+    · split at e
+      · cases e
+      · cases e; exact ho
+  | new d => simp only [step] at e; rw [bin1_olog e]; exact ho
+  | fromU64 d v => simp only [step] at e; rw [bin1_olog e]; exact ho
+  | set d x => simp only [step] at e; rw [bin1_olog e]; exact ho
+  | remove d x => simp only [step] at e; rw [bin1_olog e]; exact ho
+  | flip d x => simp only [step] at e; rw [bin1_olog e]; exact ho
+  | clear d => simp only [step] at e; rw [bin1_olog e]; exact ho
+  | and d a b => simp only [step] at e; rw [bin2_olog e]; exact ho
+  | or d a b => simp only [step] at e; rw [bin2_olog e]; exact ho
+  | xor d a b => simp only [step] at e; rw [bin2_olog e]; exact ho
+  | andA d r => simp only [step] at e; rw [bin2_olog e]; exact ho
+  | orA d r => simp only [step] at e; rw [bin2_olog e]; exact ho
+  | xorA d r => simp only [step] at e; rw [bin2_olog e]; exact ho
+  | not d r => simp only [step] at e; rw [bin1_olog e]; exact ho
+  | clone d r => simp only [step] at e; rw [bin1_olog e]; exact ho
+  | load d ws => simp only [step] at e; rw [bin1_olog e]; exact ho
 
 theorem run_refines {n k : Nat} (hn : 0 < n) : ∀ (ops : List Op) {s : St} {t : SpecSt},
     RegsAbs n s.regs t.regs → s.log = t.log → s.regs.length = k → (∀ op, op ∈ ops → op.inDomain n k = true) →
@@ -789,6 +852,19 @@ theorem run_refines {n k : Nat} (hn : 0 < n) : ∀ (ops : List Op) {s : St} {t :
     obtain ⟨s1, e1, r1, l1, k1⟩ := step_refines hn hr hl hk op (hd op List.mem_cons_self)
     obtain ⟨s', e', r', l', k'⟩ := run_refines hn ops r1 l1 k1 (fun o ho => hd o (List.mem_cons_of_mem _ ho))
     exact ⟨s', by simp only [run, e1, e'], r', l', k'⟩
+
+/-- `run_refines` together with the observation log. -/
+theorem run_refines_obs {n k : Nat} (hn : 0 < n) : ∀ (ops : List Op) {s : St} {t : SpecSt},
+    RegsAbs n s.regs t.regs → s.log = t.log → s.olog = t.olog.map (specObserveReg n) → s.regs.length = k →
+    (∀ op, op ∈ ops → op.inDomain n k = true) →
+    ∃ s', run n s ops = .ok s' ∧ RegsAbs n s'.regs (specRun t ops).regs ∧ s'.log = (specRun t ops).log ∧
+      s'.olog = (specRun t ops).olog.map (specObserveReg n) ∧ s'.regs.length = k
+  | [], s, t, hr, hl, ho, hk, _ => ⟨s, rfl, hr, hl, ho, hk⟩
+  | op :: ops, s, t, hr, hl, ho, hk, hd => by
+    obtain ⟨s1, e1, r1, l1, k1⟩ := step_refines hn hr hl hk op (hd op List.mem_cons_self)
+    have o1 := step_olog hr hk ho op (hd op List.mem_cons_self) e1
+    obtain ⟨s', e', r', l', o', k'⟩ := run_refines_obs hn ops r1 l1 o1 k1 (fun o ho => hd o (List.mem_cons_of_mem _ ho))
+    exact ⟨s', by simp only [run, e1, e'], r', l', o', k'⟩
 
 theorem observeRegs_abs {n : Nat} (hcap : Cap n) : ∀ {bs : List Bits} {ms : List Spec}, RegsAbs n bs ms →
     bs.mapM (observeReg n) = .ok (ms.map (specObserveReg n))
@@ -824,19 +900,29 @@ theorem eqMatrix_abs {n : Nat} {cs : List Bits} {ns : List Spec} (hc : RegsAbs n
     simp only [List.map_cons]
     rw [eqMatrix_abs hc h.2, eqRow_abs h.1 hc]
 
+/-- the `!=` matrix is the negated `==` matrix on both sides. -/
+theorem neMatrix_abs {n : Nat} {bs : List Bits} {ms : List Spec} (h : RegsAbs n bs ms) :
+    bs.map (fun a => bs.map (fun b => bitsNe a b)) =
+      (ms.map (Spec.table (64 * n))).map (fun ta => (ms.map (Spec.table (64 * n))).map (fun tb => !decide (ta = tb))) := by
+  have e1 : bs.map (fun a => bs.map (fun b => bitsNe a b)) =
+      (bs.map (fun a => bs.map (fun b => beq a b))).map (fun row => row.map (fun x => !x)) := by
+    simp [List.map_map, Function.comp_def, bitsNe]
+  rw [e1, eqMatrix_abs h h]
+  simp [List.map_map, Function.comp_def]
+
 theorem observe_refines {n : Nat} (hcap : Cap n) {s : St} {t : SpecSt} (hr : RegsAbs n s.regs t.regs)
-    (hl : s.log = t.log) : observe n s = .ok (specObserve n t) := by
+    (hl : s.log = t.log) (ho : s.olog = t.olog.map (specObserveReg n)) : observe n s = .ok (specObserve n t) := by
   unfold observe specObserve
   rw [observeRegs_abs hcap hr]
   simp only []
-  rw [eqMatrix_abs hr hr, hl]
+  rw [eqMatrix_abs hr hr, neMatrix_abs hr, hl, ho]
 
 theorem runCase_refines {n k : Nat} (hn : 0 < n) (hcap : Cap n) (ops : List Op)
     (hd : ∀ op, op ∈ ops → op.inDomain n k = true) : runCase n k ops = .ok (specRunCase n k ops) := by
-  obtain ⟨s', e, hr, hl, _⟩ := run_refines (k := k) hn ops (s := ⟨List.replicate k (new n), []⟩)
-    (t := ⟨List.replicate k Spec.empty, []⟩) (regsAbs_replicate n k) rfl (by simp) hd
+  obtain ⟨s', e, hr, hl, ho, _⟩ := run_refines_obs (k := k) hn ops (s := ⟨List.replicate k (new n), [], []⟩)
+    (t := ⟨List.replicate k Spec.empty, [], []⟩) (regsAbs_replicate n k) rfl rfl (by simp) hd
   unfold runCase specRunCase
   rw [e]
-  exact observe_refines hcap hr hl
+  exact observe_refines hcap hr hl ho
 
 end Rlib.Bitset
